@@ -35,6 +35,7 @@ type vfSideCfg struct {
 	NetworkTypes []NetworkType
 	TieBreaker   uint64
 	Ufrag, Pwd   string
+	TCPPassive   bool // also gather ICE-TCP passive host candidates through the simulated TCP mux (active TCP disabled)
 }
 
 type vfSide struct {
@@ -84,21 +85,24 @@ type vfStep struct {
 }
 
 type vfSession struct {
-	beforeStart func() // optional: runs in setupPair after gathering, before the agents are started
-	e           *vfEnv
-	r           *vfResult
-	rng         *rand.Rand
-	sw          *vfSwitch
-	A, B        *vfSide
-	P           *vfPeer
-	dataSt      map[*vfSide]*vfDataState
-	steps       []vfStep
-	stepN       int
-	idx         int
-	desc        map[string]any
-	start       time.Time
-	broken      string // set when the harness itself lost quiescence: the run becomes inconclusive
-	mon         struct{ c03, c04, c06, c07 bool }
+	beforeStart    func() // optional: runs in setupPair after gathering, before the agents are started
+	afterRegather  func() // optional: runs in coordinatedRestart after both sides regathered, before remote credentials are set again
+	forgeValidTCP  bool   // C02: the next forged message is a valid check from a new TCP peer address to a TCP passive candidate
+	forgeUnstarted bool   // C02: forged messages may also be injected into an agent that was not started yet
+	e              *vfEnv
+	r              *vfResult
+	rng            *rand.Rand
+	sw             *vfSwitch
+	A, B           *vfSide
+	P              *vfPeer
+	dataSt         map[*vfSide]*vfDataState
+	steps          []vfStep
+	stepN          int
+	idx            int
+	desc           map[string]any
+	start          time.Time
+	broken         string // set when the harness itself lost quiescence: the run becomes inconclusive
+	mon            struct{ c03, c04, c06, c07 bool }
 	// expectations maintained by workloads
 	noPairPossible bool
 }
@@ -194,6 +198,11 @@ func (s *vfSession) newSide(cfg vfSideCfg) (*vfSide, error) {
 		MaxBindingRequests: &mb, LoggerFactory: vfQuietLogger(), Lite: cfg.Lite,
 		KeepaliveInterval: cfg.Keepalive, LocalUfrag: cfg.Ufrag, LocalPwd: cfg.Pwd,
 		IncludeLoopback: false,
+	}
+	if cfg.TCPPassive {
+		ac.NetworkTypes = append(append([]NetworkType{}, nts...), NetworkTypeTCP4)
+		ac.TCPMux = &vfSimTCPMux{sw: s.sw, owner: cfg.Name}
+		ac.DisableActiveTCP = true
 	}
 	x := &vfSide{cfg: cfg, name: cfg.Name, sess: s, pairAddr: map[uint64]string{}, told: map[string]bool{}, filtered: map[string]bool{}}
 	if cfg.RemoteFilter != nil {
